@@ -14,6 +14,9 @@ BOUNDS = {"quick": dict(K=5), "thorough": dict(K=7)}
 OPS = ["read", "rewind", "data"]
 
 
+AUDIT = ("rewind", "data", "read", "read")
+
+
 def hist_harness(L, sw, ch, sr, K, overlap, limit, use_recorder_cls, advanced=False):
     bps = sw * ch
     util = L.modules["util"]
@@ -60,8 +63,10 @@ def hist_harness(L, sw, ch, sr, K, overlap, limit, use_recorder_cls, advanced=Fa
             return now(e, "constructor raised %s" % type(ex).__name__, syms, meta, ops)
         conds = {}
         phase, idx, c = "rec", 0, None
-        for step in range(K):
-            op = OPS[e.choose(3)]
+        for step in range(K + len(AUDIT)):
+            # K freely chosen operations, then a fixed audit: whatever the history, a rewind must give back exactly what was
+            # recorded and replay it from the start
+            op = OPS[e.choose(3)] if step < K else AUDIT[step - K]
             ops.append(op)
             tag = "%d:%s" % (step, op)
             out = exc = None
@@ -251,7 +256,7 @@ def run(rep):
     rep.hashes = L.hashes
     K = b["K"]
     tier = rep.tier
-    rep.bounds = {"histories": "every sequence of %d operations out of read / rewind / .data on a fresh recording reader" % K,
+    rep.bounds = {"histories": "every sequence of %d operations out of read / rewind / .data on a fresh recording reader, each followed by the audit rewind, .data, read, read" % K,
                   "symbolic": "source length n, block B, hop H < B, max_read = Mq/4 samples with Mq an unbounded integer (quarter-sample resolution, so rounding ties and fractions are covered)",
                   "enumerated": "overlap x limiter on/off; AudioReader(record=True) and Recorder; formats %s" % byt.fmts(tier)[:2]}
     rep.explanation = ("Real recording AudioReader driven through every operation history of length K; z3 proves per path that "
